@@ -36,8 +36,8 @@ Print Assumptions c08_dirty_covers_buf.
    Witness: A logs and flushes, C logs, A clears the flag, C reads false and acknowledges. *)
 Theorem c08_refuted :
   exists progs sched c,
-    In c (acked (run_sched (mkVariant false true false true) progs sched)) /\
-    ~ In c (file (run_sched (mkVariant false true false true) progs sched)).
+    In c (acked (run_sched (mkVariant false true false true true) progs sched)) /\
+    ~ In c (file (run_sched (mkVariant false true false true true) progs sched)).
 Proof. exact store_after_unlock_refuted. Qed.
 Print Assumptions c08_refuted.
 
@@ -45,8 +45,8 @@ Print Assumptions c08_refuted.
    client.out without the pre-write; one connection suffices (SET ... and SUBSCRIBE in one packet). *)
 Theorem c08_detach_refuted :
   exists progs sched c,
-    In c (acked (run_sched (mkVariant true false false true) progs sched)) /\
-    ~ In c (file (run_sched (mkVariant true false false true) progs sched)).
+    In c (acked (run_sched (mkVariant true false false true true) progs sched)) /\
+    ~ In c (file (run_sched (mkVariant true false false true true) progs sched)).
 Proof. exact detach_no_prewrite_refuted. Qed.
 Print Assumptions c08_detach_refuted.
 
@@ -54,8 +54,8 @@ Print Assumptions c08_detach_refuted.
    seeded change): the background flusher consuming the flag before it holds the lock ... *)
 Theorem c08_flusher_swap_refuted :
   exists progs sched c,
-    In c (acked (run_sched (mkVariant true true true true) progs sched)) /\
-    ~ In c (file (run_sched (mkVariant true true true true) progs sched)).
+    In c (acked (run_sched (mkVariant true true true true true) progs sched)) /\
+    ~ In c (file (run_sched (mkVariant true true true true true) progs sched)).
 Proof. exact flusher_swap_refuted. Qed.
 Print Assumptions c08_flusher_swap_refuted.
 
@@ -63,10 +63,20 @@ Print Assumptions c08_flusher_swap_refuted.
    by a Lua script (scripts.go calls writeAOF itself) is acknowledged with the flag clear. *)
 Theorem c08_flag_in_dispatcher_refuted :
   exists progs sched c,
-    In c (acked (run_sched (mkVariant true true false false) progs sched)) /\
-    ~ In c (file (run_sched (mkVariant true true false false) progs sched)).
+    In c (acked (run_sched (mkVariant true true false false true) progs sched)) /\
+    ~ In c (file (run_sched (mkVariant true true false false true) progs sched)).
 Proof. exact flag_in_dispatcher_refuted. Qed.
 Print Assumptions c08_flag_in_dispatcher_refuted.
+
+(* ... and the goingLive copy of the pre-write releasing the lock right after the flush and clearing
+   the flag afterwards (F13 again, in the other copy): [SET][SUBSCRIBE] in one packet on A, a write of C
+   between A's unlock and A's clear. *)
+Theorem c08_detach_store_unlocked_refuted :
+  exists progs sched c,
+    In c (acked (run_sched (mkVariant true true false true false) progs sched)) /\
+    ~ In c (file (run_sched (mkVariant true true false true false) progs sched)).
+Proof. exact detach_store_unlocked_refuted. Qed.
+Print Assumptions c08_detach_store_unlocked_refuted.
 
 (* non-vacuity: a schedule of the repaired order in which both commands are acknowledged (and flushed) *)
 Example c08_nonvacuous :
